@@ -22,7 +22,7 @@ import random
 import datetime
 import time
 
-from urllib.parse import urlsplit, quote, quote_plus, unquote, unquote_plus
+from urllib.parse import urlsplit, urlunsplit, urljoin, quote, quote_plus, unquote, unquote_plus
 
 try:
     import simplejson as json
@@ -955,6 +955,19 @@ class Patron(object):
         if self.redirects:
             redirect = self.redirects[-1]
             location = redirect['headers'].get('location')
+            if not location:
+                raise ValueError("Missing redirect location")
+            # resolve relative location against url of redirected request
+            host = self.requester.hostname
+            if host.find(u':') >= 0:  # ipv6
+                host = u'[' + host + u']'
+            qargs, query = httping.updateQargsQuery(odict(self.requester.qargs))
+            base = urlunsplit((self.requester.scheme,
+                               u"{0}:{1}".format(host, self.requester.port),
+                               self.requester.path,
+                               query,
+                               u''))
+            location = urljoin(base, location)
             path, sep, query = location.partition('?')
             path = unquote(path)
             if sep:
